@@ -1,7 +1,7 @@
 #!/bin/bash
 # tools/mut.sh <patch.diff> <ID> [<ID>...]  : apply a patch to /repo, run the
 # quick checks, always revert.  Prints one line per check.
-P="$1"; shift
+P="$(realpath "$1")"; shift
 cd /repo || exit 2
 if [ -n "$(git status --porcelain)" ]; then echo "repo dirty"; exit 2; fi
 git apply "$P" || { echo "patch does not apply"; exit 2; }
